@@ -166,7 +166,9 @@ func (h Handler) ServeHTTP(w http.ResponseWriter, r *http.Request) (int, error) 
 			}
 
 			if err != nil {
-				if err, ok := err.(net.Error); ok && err.Timeout() {
+				if errors.Is(err, httpserver.ErrMaxBytesExceeded) {
+					return http.StatusRequestEntityTooLarge, err
+				} else if err, ok := err.(net.Error); ok && err.Timeout() {
 					return http.StatusGatewayTimeout, err
 				} else if err != io.EOF {
 					return http.StatusBadGateway, err
